@@ -23,8 +23,9 @@ SPEC = {
         'assigned during construction. If all hold, whole operations on one cache are mutually '
         'exclusive, hence every execution equals the sequential execution in lock-acquisition '
         'order. Not decided: the sequential behaviour itself (C02), deadlock freedom across '
-        'two caches, the hit/miss counters (not among C03 observables).'),
-    'decided': ['mutual exclusion of whole public operations on one cache (T6 a-f)'],
+        'two caches, the hit/miss counters (not among C03 observables).'
+        ' T6g: an explicit acquire() is released on every exit of the method, exceptional exits included.'),
+    'decided': ['lock balance on every exit', 'mutual exclusion of whole public operations on one cache (T6 a-f)'],
     'declined': ['sequential semantics of each operation (see C02)',
                  'cross-cache deadlocks', 'statistics counters under races'],
     'trusted_base': ['CPython GIL: a single C-level dict call is atomic',
